@@ -102,7 +102,8 @@ theorem strict_sort : ∀ (l : List Spec.Thrift.FRec),
 
 /-- one field header: the model's delta decision and writer against the specification's rule -/
 theorem hdr_compact (t : Spec.Thrift.TT) (isTrue : Bool) (id last : Int) (h0 : 0 ≤ last) (h : last < id) :
-    Model.Thrift.wField .compact (tOut t isTrue) (if (true && decide (id - last ≤ 15)) = true then id - last else id) =
+    Model.Thrift.wField .compact (tOut t isTrue) (if (true && decide (id - last ≤ 15)) = true then id - last else id)
+        (true && decide (id - last ≤ 15)) =
       (if 0 < id - last ∧ id - last ≤ 15 then [UInt8.ofNat ((id - last).toNat * 16 + tcode t isTrue)]
        else [UInt8.ofNat (tcode t isTrue)] ++ Spec.Thrift.zz id) := by
   have hpos : 0 < id - last := by omega
@@ -111,13 +112,14 @@ theorem hdr_compact (t : Spec.Thrift.TT) (isTrue : Bool) (id last : Int) (h0 : 0
     rw [wField_compact_short _ _ (tOut_ne_stop t isTrue) (by rw [tOut_code]; exact tcode_lt t isTrue)
       (by omega) hd, tOut_code]
   · simp only [hd, decide_false, Bool.and_false, Bool.false_eq_true, if_false, and_false]
-    rw [wField_compact_long _ _ (tOut_ne_stop t isTrue) (by omega), tOut_code]
+    rw [wField_compact_long _ _ _ (tOut_ne_stop t isTrue) (Or.inl rfl), tOut_code]
 
 theorem emitFields_cons_compact (g : Model.Thrift.FieldRec) (rest : List Model.Thrift.FieldRec) (last : Int) :
     Model.Thrift.emitFields .compact (g :: rest) last =
       Model.Thrift.wField .compact
           (if ((true && (g.t == Model.Thrift.TType.bool)) && g.isTrue) = true then Model.Thrift.TType.true_ else g.t)
-          (if (true && decide (g.id - last ≤ 15)) = true then g.id - last else g.id) ++
+          (if (true && decide (g.id - last ≤ 15)) = true then g.id - last else g.id)
+          (true && decide (g.id - last ≤ 15)) ++
         (if (true && (g.t == Model.Thrift.TType.bool)) = true then [] else g.body) ++
         Model.Thrift.emitFields .compact rest g.id := rfl
 
